@@ -791,7 +791,21 @@ class Visitor(ast.NodeVisitor):
                 )
             )
 
-        result = getattr(value, node.attr)
+        try:
+            result = getattr(value, node.attr)
+        except AttributeError:
+            # Python mangles the private names (``__some_name``) in a class body at the compile time with
+            # the name of the class. The abstract syntax tree of the condition contains the unmangled name.
+            if not node.attr.startswith("__") or node.attr.endswith("__"):
+                raise
+
+            for cls in type(value).__mro__:
+                mangled = "_{}{}".format(cls.__name__.lstrip("_"), node.attr)
+                if hasattr(value, mangled):
+                    result = getattr(value, mangled)
+                    break
+            else:
+                raise
 
         self.recomputed_values[node] = result
         return result
